@@ -14,6 +14,9 @@
 //! identifiers fail and (controller) leave the complete state identical; a progression to an
 //! earlier time fails with `NonMonotonicTimeProgression` and changes nothing; estimator time
 //! never decreases (the deliberate shift when a system-clock step is absorbed is excluded).
+//! Time steps come from a boundary alphabet (1 unit of the 2^-64 s fixed point, 1e-17 s, 1e-12 s,
+//! 1 ns, 1 s, 2^40 s, both signs) and the estimator time is read back exactly; a derived macro
+//! runs 1000 tiny backward steps from one state so accumulated drift is visible.
 extern crate std;
 use std::prelude::v1::*;
 use std::{format, println, vec};
@@ -184,7 +187,7 @@ pub(super) fn explore<S: Send + Sync>(
     ctx: &Ctx,
     tag: &str,
     init: Vec<(u128, S)>,
-    succ: &(dyn Fn(&mut Tally, &S) -> Vec<(u128, S)> + Sync),
+    succ: &(dyn Fn(&mut Tally, &S, u64) -> Vec<(u128, S)> + Sync),
     max_depth: u64,
     deadline_s: f64,
 ) -> Explored {
@@ -228,7 +231,7 @@ pub(super) fn explore<S: Send + Sync>(
             let last = depth + 1 == max_depth;
             common::par_for_with(fr.len() as u64, 8, || TallyGuard(Tally::default(), ctx), |tg, i| {
                 // states of the last level are never expanded: keep only their keys
-                let out: Vec<(u128, Option<S>)> = succ(&mut tg.0, &fr[i as usize])
+                let out: Vec<(u128, Option<S>)> = succ(&mut tg.0, &fr[i as usize], depth)
                     .into_iter()
                     .filter(|(k, _)| !seen_ref.contains(k))
                     .map(|(k, s)| (k, if last { None } else { Some(s) }))
@@ -266,6 +269,42 @@ pub(super) fn explore<S: Send + Sync>(
         fixpoint,
         per_level,
     }
+}
+
+/// Time-step alphabet. 0: none, +-1: 1 s, +-2: one unit of the fixed-point Duration (2^-64 s),
+/// +-3: 1e-17 s, +-4: 1e-12 s, +-5: 1 ns, +-6: 2^40 s.
+pub(super) const STEP_MAX: i8 = 6;
+pub(super) fn step_dur(c: i8) -> Duration {
+    let d = match c.abs() {
+        0 => Duration::ZERO,
+        1 => Duration::from_seconds_nanos(1, 0),
+        2 => Duration::from_f64_seconds(1.0 / 18446744073709551616.0),
+        3 => Duration::from_f64_seconds(1e-17),
+        4 => Duration::from_f64_seconds(1e-12),
+        5 => Duration::from_seconds_nanos(0, 1),
+        _ => Duration::from_seconds_nanos(1i64 << 40, 0),
+    };
+    if c < 0 { Duration::ZERO - d } else { d }
+}
+pub(super) fn step_code(c: i8) -> String {
+    let sign = if c > 0 { "+" } else if c < 0 { "-" } else { "0" };
+    let mag = match c.abs() {
+        0 | 1 => "",
+        2 => "u",
+        3 => "a",
+        4 => "p",
+        5 => "n",
+        _ => "G",
+    };
+    format!("{sign}{mag}")
+}
+pub(super) fn step_parse(s: &str) -> Option<i8> {
+    (-STEP_MAX..=STEP_MAX).find(|c| step_code(*c) == s)
+}
+const RUN_LEN: u32 = 1000;
+/// BFS levels whose states get the RUN_LEN-step backward runs (quick: 0..=2, thorough: 0..=3).
+fn run_levels() -> u64 {
+    if common::tier() == common::Tier::Quick { 2 } else { 3 }
 }
 
 #[derive(Clone, Copy, Debug, PartialEq, Eq)]
@@ -362,6 +401,8 @@ enum AOp {
     MeasUnkLink,
     MeasUnkClock,
     Prog(i8),
+    /// derived macro: RUN_LEN consecutive progressions by the (negative) step
+    RunBack(i8),
 }
 
 impl AOp {
@@ -381,7 +422,8 @@ impl AOp {
             AOp::MeasPair(i, j) => format!("mp{i}{j}"),
             AOp::MeasUnkLink => "mul".into(),
             AOp::MeasUnkClock => "muc".into(),
-            AOp::Prog(d) => format!("p{}", if d > 0 { "+" } else if d < 0 { "-" } else { "0" }),
+            AOp::Prog(d) => format!("p{}", step_code(d)),
+            AOp::RunBack(d) => format!("pr{}", step_code(d)),
         }
     }
     fn parse(s: &str) -> Option<AOp> {
@@ -391,9 +433,8 @@ impl AOp {
             "ae" => AOp::AddExt,
             "mul" => AOp::MeasUnkLink,
             "muc" => AOp::MeasUnkClock,
-            "p+" => AOp::Prog(1),
-            "p0" => AOp::Prog(0),
-            "p-" => AOp::Prog(-1),
+            _ if s.starts_with("pr") => AOp::RunBack(step_parse(&s[2..])?),
+            _ if s.starts_with('p') => AOp::Prog(step_parse(&s[1..])?),
             _ if s.starts_with("acd") => AOp::AddClockDup(d(&s[3..])?),
             _ if s.starts_with("aed") => AOp::AddExtDup(d(&s[3..])?),
             _ if s.starts_with("ald") => AOp::AddLinkDup(d(&s[3..])?),
@@ -513,7 +554,26 @@ fn a_ops(s: &AState) -> Vec<AOp> {
     }
     v.push(AOp::Prog(0));
     v.push(AOp::Prog(1));
-    v.push(AOp::Prog(-1));
+    // every backward step of the boundary alphabet: must be rejected (self-loop); if one is
+    // accepted the resulting state is explored like any other
+    for c in 1..=STEP_MAX {
+        v.push(AOp::Prog(-c));
+    }
+    v
+}
+
+/// Ops evaluated (with the oracle) on every expanded state but whose successors are not
+/// enqueued: the forward boundary steps occupy only the last position of a word, and the
+/// RUN_LEN-step backward runs are tried from every state of BFS level <= run_levels() (cost).
+fn a_leaf_ops(_s: &AState, level: u64) -> Vec<AOp> {
+    let mut v = Vec::new();
+    for c in 2..=STEP_MAX {
+        v.push(AOp::Prog(c));
+    }
+    if level <= run_levels() {
+        v.push(AOp::RunBack(-2));
+        v.push(AOp::RunBack(-3));
+    }
     v
 }
 
@@ -786,9 +846,70 @@ fn a_apply(ctx: &Ctx, t: &mut Tally, p: &AState, pk: u128, before: &ASnap, op: A
             if dt < 0 {
                 expect = Expect::FailBackward;
             }
-            let target = p.est.current_time() + Duration::from_seconds_nanos(dt as i64, 0);
+            let target = p.est.current_time() + step_dur(dt);
             prog_target = Some(target);
             common::catch(move || e.progress_time(target))
+        }
+        AOp::RunBack(dt) => {
+            // RUN_LEN consecutive backward progressions from this state: each must fail, the
+            // exact estimator time must not have moved at the end
+            kind = AKind::Progress;
+            let d = step_dur(dt);
+            let start = ts_raw(p.est.current_time());
+            let r = common::catch(move || {
+                let mut cur = e;
+                let mut accepted = 0u32;
+                let mut wrong_err = 0u32;
+                for _ in 0..RUN_LEN {
+                    let target = cur.current_time() + d;
+                    match cur.clone().progress_time(target) {
+                        Ok(nx) => {
+                            accepted += 1;
+                            cur = nx;
+                        }
+                        Err(AlgoError::NonMonotonicTimeProgression { from, to })
+                            if from == cur.current_time() && to == target => {}
+                        Err(_) => wrong_err += 1,
+                    }
+                }
+                (cur, accepted, wrong_err)
+            });
+            t.add("a_transitions", RUN_LEN as u64 - 1);
+            t.inc("a_backward_runs");
+            match r {
+                Ok((cur, accepted, wrong_err)) => {
+                    let end = ts_raw(cur.current_time());
+                    if accepted > 0 {
+                        ctx.violation(
+                            "C42:backward-progress-accepted",
+                            format!("{accepted} of {RUN_LEN} consecutive progressions by {} (raw {}) were accepted; estimator time moved from raw {start} to {end} ({} units back)", step_code(dt), dur_raw(d), start as i128 - end as i128),
+                            a_trace(p, Some(op)),
+                        );
+                    }
+                    if wrong_err > 0 {
+                        ctx.violation(
+                            "C42:backward-progress-wrong-error",
+                            format!("{wrong_err} of {RUN_LEN} backward progressions failed with something other than NonMonotonicTimeProgression{{from=now,to=target}}"),
+                            a_trace(p, Some(op)),
+                        );
+                    }
+                    if end < start {
+                        ctx.violation(
+                            "C42:time-decreased",
+                            format!("estimator time went from raw {start} to {end} over a run of {RUN_LEN} steps of {}", step_code(dt)),
+                            a_trace(p, Some(op)),
+                        );
+                    }
+                    if accepted == 0 {
+                        t.add("a_backward_progress_rejected", RUN_LEN as u64);
+                        t.distinct(common::hash_of(&(pk, op.code())));
+                        t.inc("a_transitions");
+                        return (None, "a_rej:run".to_string());
+                    }
+                    Ok(Ok(cur))
+                }
+                Err(pn) => Err(pn),
+            }
         }
     };
     t.inc("a_transitions");
@@ -927,10 +1048,15 @@ fn a_apply(ctx: &Ctx, t: &mut Tally, p: &AState, pk: u128, before: &ASnap, op: A
     (n, outcome)
 }
 
-fn a_succ(ctx: &Ctx, t: &mut Tally, p: &AState) -> Vec<(u128, AState)> {
+fn a_succ(ctx: &Ctx, t: &mut Tally, p: &AState, level: u64) -> Vec<(u128, AState)> {
     let before = a_snap(p);
     let pk = a_key(p);
     let mut out = Vec::new();
+    for op in a_leaf_ops(p, level) {
+        let (_, outcome) = a_apply(ctx, t, p, pk, &before, op);
+        t.inc(&outcome);
+        t.inc("a_leaf_ops");
+    }
     for op in a_ops(p) {
         let (n, outcome) = a_apply(ctx, t, p, pk, &before, op);
         t.inc(&outcome);
@@ -952,14 +1078,14 @@ fn a_succ(ctx: &Ctx, t: &mut Tally, p: &AState) -> Vec<(u128, AState)> {
 
 /// Seeds: histories (applied with the same oracle) whose end states start the search, so
 /// that structures needing several ops to build are explored `depth` ops further.
-const A_SEEDS: &[&str] = &["", "ac,ae,al01,ac", "ae,ac,ac,al12,m0f,p+"];
+const A_SEEDS: &[&str] = &["", "ac,ae,al01,ac", "ae,ac,ac,al12,m0f,p+", "ac,ac,al01,p+u,p+a,m0r,p+n"];
 
 fn a_run_hist(ctx: &Ctx, hist: &str) -> Option<AState> {
     let mut s = a_new();
     let mut t = Tally::default();
     for code in hist.split(',').filter(|c| !c.is_empty()) {
         let op = AOp::parse(code)?;
-        if !a_ops(&s).contains(&op) {
+        if !a_ops(&s).contains(&op) && !a_leaf_ops(&s, 0).contains(&op) {
             return None;
         }
         let before = a_snap(&s);
@@ -1002,15 +1128,15 @@ fn run_a(ctx: &Ctx, depth: u64) {
         ctx,
         "(a) estimator",
         init,
-        &|t: &mut Tally, s: &AState| {
+        &|t: &mut Tally, s: &AState, level: u64| {
             let n = sample_every.fetch_add(1, std::sync::atomic::Ordering::Relaxed);
             if n % 9973 == 500 {
                 ctx.sample(format!("{} => {}", a_trace(s, None), a_describe(s)));
             }
-            a_succ(ctx, t, s)
+            a_succ(ctx, t, s, level)
         },
         depth,
-        common::budget_s() * 0.6, // leave at least 40% of the budget to part (b)
+        common::budget_s() * 0.75, // leave at least a quarter of the budget to part (b)
     );
     ctx.add("states", ex.states);
     ctx.set("a_states", ex.states);
@@ -1142,6 +1268,10 @@ pub(super) enum BOp {
     Meas(u8, bool),
     Warm(u8),
     Prog(i8),
+    /// leaf: move every mock clock by the boundary step, then one forward measurement on link k
+    StepMeas(i8, u8),
+    /// leaf macro: RUN_LEN x (move clocks by the negative step, forward measurement on link k)
+    RunBack(i8, u8),
 }
 
 impl BOp {
@@ -1156,7 +1286,9 @@ impl BOp {
             BOp::Drop(k) => format!("dl{k}"),
             BOp::Meas(k, f) => format!("m{k}{}", if f { "f" } else { "r" }),
             BOp::Warm(k) => format!("w{k}"),
-            BOp::Prog(d) => format!("p{}", if d > 0 { "+" } else if d < 0 { "-" } else { "0" }),
+            BOp::Prog(d) => format!("p{}", step_code(d)),
+            BOp::StepMeas(d, k) => format!("x{k}{}", step_code(d)),
+            BOp::RunBack(d, k) => format!("y{k}{}", step_code(d)),
         }
     }
     fn parse(s: &str) -> Option<BOp> {
@@ -1164,9 +1296,9 @@ impl BOp {
         Some(match s {
             "ac" => BOp::AddClock,
             "ae" => BOp::AddExt,
-            "p+" => BOp::Prog(1),
-            "p0" => BOp::Prog(0),
-            "p-" => BOp::Prog(-1),
+            _ if s.starts_with('p') => BOp::Prog(step_parse(&s[1..])?),
+            _ if s.starts_with('x') && s.len() >= 3 => BOp::StepMeas(step_parse(&s[2..])?, d(&s[1..2])?),
+            _ if s.starts_with('y') && s.len() >= 3 => BOp::RunBack(step_parse(&s[2..])?, d(&s[1..2])?),
             _ if s.starts_with("rc") => BOp::RemClock(Who::parse(&s[2..])?),
             _ if s.starts_with("re") => BOp::RemExt(Who::parse(&s[2..])?),
             _ if s.starts_with("tl") && s.len() == 4 => BOp::Tracked(Who::parse(&s[2..3])?, Who::parse(&s[3..4])?),
@@ -1422,6 +1554,25 @@ fn b_ops(s: &BState) -> Vec<BOp> {
     v.push(BOp::Prog(0));
     v.push(BOp::Prog(1));
     v.push(BOp::Prog(-1));
+    v
+}
+
+/// Ops evaluated with the oracle on every expanded state whose successors are not enqueued
+/// (boundary time steps occupy only the last "time" position of a word; the backward runs
+/// are tried from every state of BFS level <= run_levels()). Only for C42.
+fn b_leaf_ops(s: &BState, level: u64) -> Vec<BOp> {
+    let mut v = Vec::new();
+    if s.links.is_empty() {
+        return v;
+    }
+    for c in 2..=STEP_MAX {
+        v.push(BOp::StepMeas(c, 0));
+        v.push(BOp::StepMeas(-c, 0));
+    }
+    if level <= run_levels() {
+        v.push(BOp::RunBack(-2, 0));
+        v.push(BOp::RunBack(-3, 0));
+    }
     v
 }
 
@@ -1885,13 +2036,106 @@ pub(super) fn b_apply(ctx: &Ctx, t: &mut Tally, w: Which, p: &BState, op: BOp) -
         }
         BOp::Prog(dt) => {
             structural = false;
-            let d = Duration::from_seconds_nanos(dt as i64, 0);
+            let d = step_dur(dt);
             n.ctrl.state.with_ref(|st| {
                 for c in st.clocks.iter() {
                     c.clock.advance(d);
                 }
             });
             t.inc("b_mock_time_moves");
+        }
+        BOp::StepMeas(dt, k) => {
+            structural = false;
+            let d = step_dur(dt);
+            n.ctrl.state.with_ref(|st| {
+                for c in st.clocks.iter() {
+                    c.clock.advance(d);
+                }
+            });
+            let moved = Arc::new(b_view(&n));
+            let (r, v) = b_measure(ctx, t, w, &mut n, k as usize, true, 0, moved, &trace);
+            meas_view = Some(v);
+            t.inc(&format!("b_out:stepmeas{}:{}", if dt < 0 { "-" } else { "+" }, r.err().unwrap_or_else(|| "ok".into())));
+        }
+        BOp::RunBack(dt, k) => {
+            structural = false;
+            let d = step_dur(dt);
+            let link_id = n.links[k as usize].id;
+            let (val, unc) = b_meas(n.links[k as usize].slot, true, 0);
+            let m = Measurement {
+                send_timestamp: b_t0(),
+                recv_timestamp: b_t0() + Duration::from_f64_seconds(val),
+                uncertainty: Duration::from_f64_seconds(unc),
+            };
+            let _ = link_id;
+            let start = ts_raw(pre_filter_time(&b_filter(&n)));
+            let key_before_run = before.key;
+            let nn = &n;
+            let r = common::catch(|| {
+                let mut accepted = 0u32; // accepted although the clock was behind the estimator
+                let mut wrong = 0u32; // clock behind, failed with another error
+                let mut forward = 0u32; // clock not behind (legitimate progression), any result
+                for _ in 0..RUN_LEN {
+                    let now = nn.ctrl.state.with_ref(|st| {
+                        for c in st.clocks.iter() {
+                            c.clock.advance(d);
+                        }
+                        st.clocks[0].clock.peek().0
+                    });
+                    let est_t = nn.ctrl.state.with_ref(|st| pf::est(&st.filter).current_time());
+                    let backward = dur_raw(now - est_t) < 0;
+                    let r = nn.links[k as usize].h.measurement(m, Direction::Forward);
+                    if !backward {
+                        forward += 1;
+                        continue;
+                    }
+                    match r {
+                        Ok(()) => accepted += 1,
+                        Err(AlgoError::NonMonotonicTimeProgression { from, to }) if from == est_t && to == now => {}
+                        Err(_) => wrong += 1,
+                    }
+                }
+                (accepted, wrong, forward)
+            });
+            t.add("b_transitions", RUN_LEN as u64);
+            t.inc("b_backward_runs");
+            match r {
+                Err(pn) => outcome = Err(pn),
+                Ok((accepted, wrong, forward)) => {
+                    let end = ts_raw(pre_filter_time(&b_filter(&n)));
+                    // only meaningful when the clock was not already ahead of the estimator by
+                    // more than the whole run (it never is: steps are <= 1e-14 s in total)
+                    if w.c42 {
+                        if accepted > 0 {
+                            ctx.violation(
+                                "C42:backward-progress-accepted",
+                                format!("{accepted} of {RUN_LEN} measurements, each after moving the system clock back by {} (raw {}), were accepted; estimator time raw {start} -> {end} ({} units back)", step_code(dt), dur_raw(d), start as i128 - end as i128),
+                                trace(),
+                            );
+                        } else {
+                            t.add("b_backward_progress_rejected", (RUN_LEN - forward - wrong) as u64);
+                            t.distinct(common::hash_of(&(key_before_run, op.code())));
+                            if forward == 0 && end != start {
+                                ctx.violation(
+                                    "C42:failed-progress-altered-state",
+                                    format!("all {RUN_LEN} backward progressions were rejected but the estimator time moved raw {start} -> {end}"),
+                                    trace(),
+                                );
+                            }
+                        }
+                        if wrong > 0 {
+                            ctx.violation(
+                                "C42:backward-progress-wrong-error",
+                                format!("{wrong} of {RUN_LEN} measurements with the clock behind the estimator failed with something other than NonMonotonicTimeProgression{{from=estimator time,to=clock}}"),
+                                trace(),
+                            );
+                        }
+                        if forward > 0 {
+                            t.add("b_backward_run_forward_steps", forward as u64);
+                        }
+                    }
+                }
+            }
         }
     }
     if structural {
@@ -1995,9 +2239,15 @@ pub(super) fn b_apply(ctx: &Ctx, t: &mut Tally, w: Which, p: &BState, op: BOp) -
     n
 }
 
-fn b_succ(ctx: &Ctx, t: &mut Tally, w: Which, p: &BState) -> Vec<(u128, BState)> {
+fn b_succ(ctx: &Ctx, t: &mut Tally, w: Which, p: &BState, level: u64) -> Vec<(u128, BState)> {
     let pk = p.view.as_ref().unwrap().key;
     let mut out = Vec::new();
+    if w.c42 {
+        for op in b_leaf_ops(p, level) {
+            let _ = b_apply(ctx, t, w, p, op);
+            t.inc("b_leaf_ops");
+        }
+    }
     for op in b_ops(p) {
         let n = b_apply(ctx, t, w, p, op);
         if n.dead {
@@ -2024,7 +2274,7 @@ pub(super) fn b_run_hist(ctx: &Ctx, w: Which, hist: &str) -> Option<BState> {
     }
     for code in hist.split(',').filter(|c| !c.is_empty()) {
         let op = BOp::parse(code)?;
-        if s.dead || !b_ops(&s).contains(&op) {
+        if s.dead || (!b_ops(&s).contains(&op) && !b_leaf_ops(&s, 0).contains(&op)) {
             return None;
         }
         s = b_apply(ctx, &mut t, w, &s, op);
@@ -2072,12 +2322,12 @@ pub(super) fn run_b(ctx: &Ctx, w: Which, depth: u64) {
         ctx,
         "(b) controller",
         init,
-        &|t: &mut Tally, s: &BState| {
+        &|t: &mut Tally, s: &BState, level: u64| {
             let n = counter.fetch_add(1, std::sync::atomic::Ordering::Relaxed);
             if n % 4999 == 700 {
                 ctx.sample(format!("{} => {}", b_trace(s, None), b_describe(s)));
             }
-            b_succ(ctx, t, w, s)
+            b_succ(ctx, t, w, s, level)
         },
         depth,
         common::budget_s(),
@@ -2122,15 +2372,18 @@ fn check() {
          (ids masked by creation position). (a) EstimatorState: ops {{add clock, add external, re-add existing id (as clock / as external), \
          remove clock / external (present, wrong kind, unknown, stale), add link (every ordered pair), add link with existing id, \
          add link with unknown endpoint, remove link (present, unknown, stale), measurement over a link (both directions, also over an orphaned link), \
-         link-less measurement (every ordered pair), measurement with unknown link / unknown clock, progress dt in {{0,+1s,-1s}}}}, <=3 clocks, <=2 links, \
+         link-less measurement (every ordered pair), measurement with unknown link / unknown clock, progress dt in {{0,+1s}} and every backward step of T={{1 unit=2^-64s,1e-17s,1e-12s,1ns,1s,2^40s}}}}, <=3 clocks, <=2 links, \
          depth {da} after each of {} seed histories. (b) KalmanController + KalmanLink + mock clock: ops {{add clock, add external, remove clock/external \
          (each present id incl. system clock, in-use, wrong kind, unknown, stale), create tracked/untracked link (every ordered pair, self, unknown endpoint, both external), \
          drop link, measurement (both directions), warm (4 round trips = 8 measurements), clock time moves dt in {{0,+1s,-1s}}}}, <=3 clocks, <=2 links, depth {db} after each of {} seeds. \
+         Time-boundary symbols restricted to the last position of a word (evaluated on every expanded state, successors not enqueued): (a) progress by +t for t in T\\{{1s}}, (b) move clocks by +-t then measure link 0; \
+         derived macro on every state of BFS level <=2 (quick) / <=3 (thorough): 1000 consecutive backward steps of 1 unit and of 1e-17 s ((b): clock moved back + measurement each time), exact time compared at the end. \
          Non-trivial & distinct = (state, op) where a structural op succeeded with at least one bystander estimate compared, or an unknown/duplicate/backward op was rejected.",
         A_SEEDS.len(),
         B_SEEDS.len()
     ));
     ctx.assume("initial values / measurement values are one fixed pairwise-distinct alphabet (not all of R)");
+    ctx.assume("time steps: boundary alphabet {0, +-2^-64 s, +-1e-17 s, +-1e-12 s, +-1 ns, +-1 s, +-2^40 s}, estimator time read back exactly (u128 in 2^-64 s)");
     ctx.assume("128-bit hash of the canonical state key stands for the key (collision probability negligible)");
     ctx.assume("(a) the estimator API consumes self, so 'fails without altering' reduces to 'fails' there; the unaltered-state check is done on the controller (b), whose whole probe-visible state + mock clocks form the key");
     ctx.assume("a failing measurement may keep the time progression that precedes it (KalmanLink::measurement commits the progression first); anything beyond that is reported");
